@@ -71,6 +71,11 @@ Lemma side_marker_lifetimes_match_model :
   code_window_s = p_win P0.
 Proof. vm_compute. repeat split; intros; reflexivity. Qed.
 
+(* the stores the repositories are given in this tree (memory, hybrid over it) provide the atomic set-if-absent: the model's
+   one-step SetNX is what Claim / AcquireAdmission execute; a non-atomic fallback for stores without it is outside the property *)
+Lemma side_shipped_stores_have_cas : shipped_stores_have_cas = true.
+Proof. vm_compute. reflexivity. Qed.
+
 (* the quota defaults are positive (a zero quota would reject every activation) *)
 Lemma side_quota_defaults_positive : 0 < DefaultMaxActiveCodesPerClient /\ 0 < DefaultMaxActiveMappingsPerClient.
 Proof. unfold DefaultMaxActiveCodesPerClient, DefaultMaxActiveMappingsPerClient. lia. Qed.
